@@ -59,12 +59,14 @@ type State struct {
 	DefIdx map[types.Object]int
 	Unrep  map[*Origin]bool         // failed on some path, not surfaced yet
 	Pend   map[*Origin]types.Object // error result bound, never inspected so far (may)
+	// FuncVal: a func-typed parameter of a callee analysed in context is known to be this function / method value
+	FuncVal map[types.Object]*types.Func
 }
 
 func newState() *State {
 	return &State{Must: map[Tag]bool{}, May: map[Tag]bool{}, Nil: map[types.Object]int8{}, Bool: map[types.Object]int8{},
 		Eq: map[types.Object]*types.Const{}, Def: map[types.Object]*Origin{}, DefIdx: map[types.Object]int{},
-		Unrep: map[*Origin]bool{}, Pend: map[*Origin]types.Object{}}
+		Unrep: map[*Origin]bool{}, Pend: map[*Origin]types.Object{}, FuncVal: map[types.Object]*types.Func{}}
 }
 
 func (s *State) copy() *State {
@@ -95,6 +97,9 @@ func (s *State) copy() *State {
 	}
 	for k, v := range s.Pend {
 		n.Pend[k] = v
+	}
+	for k, v := range s.FuncVal {
+		n.FuncVal[k] = v
 	}
 	return n
 }
@@ -136,6 +141,12 @@ func (s *State) join(o *State) bool {
 		if o.Def[k] != v || o.DefIdx[k] != s.DefIdx[k] {
 			delete(s.Def, k)
 			delete(s.DefIdx, k)
+			ch = true
+		}
+	}
+	for k, v := range s.FuncVal {
+		if o.FuncVal[k] != v {
+			delete(s.FuncVal, k)
 			ch = true
 		}
 	}
@@ -256,6 +267,8 @@ type Summary struct {
 	// MayOk / MayFail: what may have happened on some exit that can return a nil / a non-nil error
 	MayOk   map[Tag]bool
 	MayFail map[Tag]bool
+	// ConstRes: the named constant every exit returns as result 0 (nil if they differ or it is not one)
+	ConstRes *types.Const
 }
 
 // AssignPoint is a classified assignment with the state before it.
@@ -288,6 +301,13 @@ type Spec struct {
 	AssignTags func(pkg *packages.Package, as *ast.AssignStmt) []Tag
 	// Visit, when set, is called in the recording pass for every CFG node with the state before it.
 	Visit func(pkg *packages.Package, n ast.Node, st *State)
+	// AssumeCond, when set, is asked about a branch condition before the engine's own facts: known=true fixes its
+	// value for this analysis (an entry assumption such as "*errp != nil" that the fact domain cannot express).
+	AssumeCond func(pkg *packages.Package, cond ast.Expr) (known, val bool)
+	// Effect, when set, is a rule-defined transfer function: called in every pass (fixpoint and recording) for
+	// every CFG node with the state before it, which it may update (tags that depend on the facts of the state,
+	// e.g. "the status field now holds the constant this variable is known to equal").
+	Effect func(pkg *packages.Package, n ast.Node, st *State)
 	// AssumeNonNil marks calls whose (single) result is to be assumed non-nil ("what if this failed / panicked").
 	AssumeNonNil func(pkg *packages.Package, call *ast.CallExpr) bool
 	// LoopTags optionally returns tags that hold once a range loop has completed (the rule inspects the
@@ -739,6 +759,9 @@ func (r *runner) block(b *cfg.Block, st *State) []*State {
 	for i := 0; i < n; i++ {
 		if r.record && r.sp.Visit != nil {
 			r.sp.Visit(r.pkg, b.Nodes[i], st)
+		}
+		if r.sp.Effect != nil {
+			r.sp.Effect(r.pkg, b.Nodes[i], st)
 		}
 		r.node(b, b.Nodes[i], st)
 	}
@@ -1283,7 +1306,18 @@ func (r *runner) call(b *cfg.Block, c *ast.CallExpr, st *State, valueUsed bool) 
 		r.evalExpr(b, a, st)
 	}
 	callee := core.Callee(r.info, c)
+	if callee == nil {
+		// a call of a func-typed parameter whose value is known in this context
+		if id, ok := ast.Unparen(c.Fun).(*ast.Ident); ok {
+			if o := r.info.Uses[id]; o != nil && st.FuncVal[o] != nil {
+				callee = st.FuncVal[o]
+			}
+		}
+	}
 	or := r.origins[c]
+	if or != nil && or.Callee != callee {
+		or = nil // the same call expression analysed under another binding of its function value
+	}
 	if or == nil {
 		or = &Origin{Call: c, Callee: callee, ErrIdx: -1}
 		if tv, ok := r.info.Types[c.Fun]; ok {
@@ -1329,6 +1363,21 @@ func (r *runner) call(b *cfg.Block, c *ast.CallExpr, st *State, valueUsed bool) 
 					}
 					if cst := core.ConstObj(r.info, a); cst != nil {
 						seed.Eq[params[i]] = cst
+					}
+					// a function or method value handed to a func-typed parameter
+					if _, isFn := params[i].Type().Underlying().(*types.Signature); isFn {
+						switch fx := ast.Unparen(a).(type) {
+						case *ast.Ident:
+							if f, ok := r.info.Uses[fx].(*types.Func); ok {
+								seed.FuncVal[params[i]] = f
+							} else if o := r.info.Uses[fx]; o != nil && st.FuncVal[o] != nil {
+								seed.FuncVal[params[i]] = st.FuncVal[o]
+							}
+						case *ast.SelectorExpr:
+							if f, ok := r.info.Uses[fx.Sel].(*types.Func); ok {
+								seed.FuncVal[params[i]] = f
+							}
+						}
 					}
 					if id, ok := ast.Unparen(a).(*ast.Ident); ok {
 						if src := r.info.Uses[id]; src != nil {
@@ -1443,6 +1492,7 @@ func (r *runner) killVar(o types.Object, st *State, pos token.Pos) {
 	delete(st.Eq, o)
 	delete(st.Def, o)
 	delete(st.DefIdx, o)
+	delete(st.FuncVal, o)
 }
 
 // bind records `o = e`.
@@ -1493,6 +1543,9 @@ func (r *runner) bind(o types.Object, e ast.Expr, st *State) {
 			}
 			if r.nonNilCall(x, st) {
 				st.Nil[o] = isNonNil
+			}
+			if or.Inlined && or.Sum != nil && or.Sum.ConstRes != nil {
+				st.Eq[o] = or.Sum.ConstRes
 			}
 		}
 	case *ast.UnaryExpr:
@@ -1891,6 +1944,24 @@ func (r *runner) summarise() *Summary {
 			}
 		}
 	}
+	for i, ex := range r.res.Exits {
+		var c *types.Const
+		if len(ex.Results) > 0 && (ex.Stmt == nil || len(ex.Stmt.Results) == r.nres) {
+			c = ex.ResultConst(r.info, 0)
+			if c == nil {
+				if id, ok := ast.Unparen(ex.Results[0]).(*ast.Ident); ok && ex.Stmt != nil {
+					if o := r.info.Uses[id]; o != nil {
+						c = ex.St.Eq[o]
+					}
+				}
+			}
+		}
+		if i == 0 {
+			s.ConstRes = c
+		} else if s.ConstRes != c {
+			s.ConstRes = nil
+		}
+	}
 	s.BoolIdx = -1
 	if r.boolIdx >= 0 {
 		s.BoolIdx = r.boolIdx
@@ -1988,6 +2059,11 @@ func (s *State) IsFalse(o types.Object) bool { return s.Bool[o] == isFalse }
 // condValue evaluates a condition under the current facts (nil-ness and truth of variables only).
 func (r *runner) condValue(cond ast.Expr, st *State) (known, val bool) {
 	cond = ast.Unparen(cond)
+	if r.sp.AssumeCond != nil {
+		if k, v := r.sp.AssumeCond(r.pkg, cond); k {
+			return true, v
+		}
+	}
 	switch x := cond.(type) {
 	case *ast.UnaryExpr:
 		if x.Op == token.NOT {
